@@ -107,7 +107,9 @@ def _views(shard):
         starts = np.arange(0, shard["N"] - L + 1, L // 2, dtype=np.int64)
         win = np.ascontiguousarray(np.hanning(L))
         k = kern.get_kernel(backend, True, order)
-        for b in (3.0, 5.37, L / 4):
+        # three ordinary bins, plus a frequency far below the first bin and one just under Nyquist (|sin w| < 1e-4: what the lowest
+        # bins of a very long record look like to the recurrence)
+        for b in (3.0, 5.37, L / 4, 3e-5 * L / (2 * np.pi), (np.pi - 3e-5) * L / (2 * np.pi)):
             w = 2 * np.pi * b / L
             got = k(xv, yv, starts, L, win, w)
             ref = est.ref_stats(np.array(xv), np.array(yv), starts, L, win, w, order)
